@@ -540,9 +540,28 @@ func (p *printVisitor) EnterObjectTypeExtension(ref int) {
 	p.write(literal.SPACE)
 	p.write(p.document.ObjectTypeExtensionNameBytes(ref))
 	p.write(literal.SPACE)
+	p.writeImplementsInterfaces(p.document.ObjectTypeExtensions[ref].ImplementsInterfaces.Refs)
 
 	p.inputValueDefinitionOpener = literal.LPAREN
 	p.inputValueDefinitionCloser = literal.RPAREN
+}
+
+// writeImplementsInterfaces prints "implements A & B " (nothing for an empty list).
+func (p *printVisitor) writeImplementsInterfaces(refs []int) {
+	if len(refs) == 0 {
+		return
+	}
+	p.write(literal.IMPLEMENTS)
+	p.write(literal.SPACE)
+	for i, j := range refs {
+		if i != 0 {
+			p.write(literal.SPACE)
+			p.write(literal.AND)
+			p.write(literal.SPACE)
+		}
+		p.must(p.document.PrintType(j, p.out))
+	}
+	p.write(literal.SPACE)
 }
 
 func (p *printVisitor) LeaveObjectTypeExtension(ref int) {
@@ -749,6 +768,7 @@ func (p *printVisitor) EnterInterfaceTypeExtension(ref int) {
 	p.write(literal.SPACE)
 	p.write(p.document.InterfaceTypeExtensionNameBytes(ref))
 	p.write(literal.SPACE)
+	p.writeImplementsInterfaces(p.document.InterfaceTypeExtensions[ref].ImplementsInterfaces.Refs)
 
 	p.inputValueDefinitionOpener = literal.LPAREN
 	p.inputValueDefinitionCloser = literal.RPAREN
